@@ -178,13 +178,13 @@ def make_cases(res, rng, tier):
         if tl.n_coefs > 400:
             continue
         X = gen_pred_X(rng, Xtr, factor_feats, rng.randint(3, 7))
-        # rows that sit within 1e-12 of a jump of an order-0 / periodic basis, or in the S10 gap: not compared (counted)
+        # rows that sit within 1e-12 of a jump of an order-0 / periodic basis: not compared (counted)
         sl = [s for t in tl._terms for s in spline_like(t)]
         keep = []
         for r in range(len(X)):
-            amb = any(c03.alternatives(X[r, f], ek, n, k, per) or c03.in_gap(X[r, f], ek, per) for (f, ek, n, k, per) in sl)
+            amb = any(c03.alternatives(X[r, f], ek, n, k, per) for (f, ek, n, k, per) in sl)
             if amb:
-                res.count('rows_skipped(rounding-adjacent or S10 gap)')
+                res.count('rows_skipped(rounding-adjacent)')
             else:
                 keep.append(r)
         X = X[keep]
@@ -256,7 +256,7 @@ def run(res):
                 'dummy, tensor terms with 2..4 marginals of mixed kinds, by-variables, intercept anywhere), compiled on a training X '
                 'and evaluated on a different prediction-time X (numeric columns reach 40% outside the training range on both sides, '
                 'any sign; boundary values included). A case is one (term list, X); non-trivial unless it only holds an intercept. '
-                'Rows within 1e-12 of a jump of an order-0 / periodic basis or inside the S10 gap are not compared (counted).')
+                'Rows within 1e-12 of a jump of an order-0 / periodic basis are not compared (counted).')
     common.standard_prove(res, PROPS_FILE)
     cases, meta = make_cases(res, rng, res.tier)
     with common.CaseDir(PROP) as cd:
